@@ -572,10 +572,19 @@ class G:
         body.append(Func('递', ['深'], [If(Bin('le', Var('深'), Num('0')), [Ret(Num('0'))]),
                                         Ret(Bin('+', Num('1'), Call('递', [Bin('-', Var('深'), Num('1'))])))]))
         # a type with defaults, constructor, methods
-        body.append(Class('点', [('横', Num('1')), ('竖', Arr([Num('0')]))],
+        body.append(Class('点', [('横', Num('1')), ('竖', Arr([Num('0')])), ('下', Var('空')),
+                                 ('格', Arr([Arr([Num('0'), Num('0')]), Arr([Num('0'), Num('0')])])),
+                                 ('表', Dict([(Var('k'), Arr([Num('0')]))]))],
                           [Func('移', ['步'], [ExprS(Assign(This('横'), Bin('+', This('横'), Var('步')))), Ret(This('横'))]),
                            Func('叠', ['物'], [ExprS(MCall(This('竖'), [('后增', [Var('物')])])), Ret(Prop(This('竖'), '长度'))]),
-                           Func('己', [], [Ret(This('自身'))])]))
+                           Func('己', [], [Ret(This('自身'))]),
+                           # in-place change of an element reached through a nested default
+                           Func('落子', ['行', '列', '子'], [ExprS(Assign(Index(Index(This('格'), Var('行')), Var('列')), Var('子'))), Ret(This('格'))]),
+                           Func('记', ['物'], [ExprS(MCall(Index(This('表'), Str('k')), [('后增', [Var('物')])])), Ret(This('表'))]),
+                           # links between objects: a chain's intermediate result is ANOTHER object
+                           Func('接', ['另'], [ExprS(Assign(This('下'), Var('另'))), Ret(Var('另'))]),
+                           Func('取下', [], [Ret(This('下'))]),
+                           Func('取横', [], [Ret(This('横'))])]))
         if rng.random() < 0.7:
             body.append(Func('点', ['初横'], [ExprS(Assign(This('横'), Var('初横')))], ctor=True))
             ctor_ar = 1
@@ -607,17 +616,26 @@ class G:
                 k = rng.random()
                 if k < 0.3:
                     main.append(ExprS(Call('显示', [MCall(Var(o), [('移', [Num(rng.choice(SMALL_INTS))])])])))
-                elif k < 0.5:
+                elif k < 0.42:
                     main.append(ExprS(Call('显示', [MCall(Var(o), [('叠', [Num(str(self.fresh()))])])])))
+                elif k < 0.5:
+                    main.append(ExprS(Call('显示', [MCall(Var(o), [('落子', [Num(str(rng.randint(1, 2))), Num(str(rng.randint(1, 2))), Num(str(self.fresh()))])]),
+                                                  MCall(Var(o), [('记', [Num(str(self.fresh()))])])])))
                 elif k < 0.65:
                     main.append(ExprS(Call('显示', [MCall(Var(o), [('己', []), ('移', [Num('2')])])])))
                 elif k < 0.8:
                     main.append(ExprS(Call('显示', [Prop(Var(o), '横'), Prop(Var(o), '竖')])))
+                elif k < 0.84 and len(objs) >= 2:
+                    # link two different objects, then walk the chain: every link runs with ITS receiver as 其
+                    a, b = rng.sample(objs, 2)
+                    main.append(ExprS(MCall(Var(a), [('接', [Var(b)])])))
+                    main.append(ExprS(Call('显示', [MCall(Var(a), [('取下', []), ('取横', [])]), MCall(Var(a), [('取下', []), ('移', [Num('10')])])])))
                 elif k < 0.9:
                     main.append(ExprS(Call('显示', [MCall(Var(o), [(rng.choice(['无此法', '移']), [])])])))
                 else:
                     main.append(ExprS(Call('显示', [Prop(Var(o), rng.choice(['无此性', '横']))])))
-                main.append(ExprS(Call('显示', [Prop(Var(x), '横') for x in objs] + [Prop(Var(x), '竖') for x in objs])))
+                main.append(ExprS(Call('显示', [Prop(Var(x), '横') for x in objs] + [Prop(Var(x), '竖') for x in objs] +
+                                       [Prop(Var(x), '格') for x in objs] + [Prop(Var(x), '表') for x in objs])))
             else:
                 main.append(ExprS(Call('显示', [MCall(Num(rng.choice(SMALL_INTS)), [('加', [Num('1')]), ('乘', [Num('2')])])])))
         return Program([], body + main), {}
